@@ -567,6 +567,18 @@ def sql_floor_division_rule(program, res, rule="C05-S1", dialects=(("SQLite", "S
 
 # witnesses for the value tables of the floored modulo and the floor division: integer and real operands of both signs, exact multiples included
 ARITHMETIC_WITNESSES = [(7, 2), (-7, 2), (7, -2), (-7, -2), (5, -7), (-1, 3), (6, 3), (-6, 3), (0, 5), (7.5, 2.0), (-7.5, 2.0), (7.5, -2.0), (-7.5, -2.0), (7, 2.0), (-7.0, 2)]
+# SQLite only (its integer branch promises exact integers, and its overflow rule is known: the result is computed in REAL): divisors beyond 2**62 —
+# a template that adds the divisor to something leaves the 64 bit range.  The other dialects raise on overflow (loud) and compute the shared
+# float forms in double precision (a stated limit, 10.8), so the generic tables keep to the small witnesses.
+SQLITE_WIDE_WITNESSES = [(1, 2 ** 63 - 1), (-3, -(2 ** 63 - 1)), (2 ** 62 + 1, -(2 ** 62 + 3)), (-(2 ** 62 + 1), 2 ** 62 + 3)]
+
+
+def _same_value(got, want) -> bool:
+    if got is None:
+        return False
+    if isinstance(got, int) and isinstance(want, int) and not isinstance(got, bool):
+        return got == want
+    return abs(float(got) - float(want)) <= 1e-9 * max(1.0, abs(float(want)))
 
 
 def sqlite_arithmetic_tables(program, res, rule="C05-S2"):
@@ -590,14 +602,14 @@ def sqlite_arithmetic_tables(program, res, rule="C05-S2"):
                 continue
             n += 1
             bad = None
-            for (a, b) in ARITHMETIC_WITNESSES:
+            for (a, b) in ARITHMETIC_WITNESSES + SQLITE_WIDE_WITNESSES:
                 try:
                     got = sql3vl.ev(tree, {"X": a, "Y": b})
                 except sql3vl.Opaque as e:
                     bad = ("opaque", str(e))
                     break
                 want = py(a, b)
-                if got is None or abs(float(got) - float(want)) > 1e-9:
+                if not _same_value(got, want):
                     bad = (a, b, got, want)
                     break
             if bad is None:
@@ -645,7 +657,7 @@ def sql_modulo_tables(program, res, rule="C05-S2", dialects=None):
                         bad = ("opaque", str(e))
                         break
                     want = a % b
-                    if got is None or abs(float(got) - float(want)) > 1e-9:
+                    if not _same_value(got, want):
                         bad = (a, b, got, want)
                         break
                 if bad is None:
@@ -977,6 +989,17 @@ def masked_condition_rule(program, res, rule="C05-S8"):
                     res.fail_at(rule, h, f"is-in-masked-column:{h.node.name}",
                                 f"`{unparse(c)[:50]}` is handed the column as it is: for a nullable (masked) column with a missing entry — the result of an and / or — "
                                 f"numpy.isin raises 'boolean value of NA is ambiguous'; a missing entry is in no set", c)
+        # Series.isin counts a missing entry as a member of a list that holds None / nan (pandas matches missing to missing); numpy.isin and SQL do not
+        for c in ast.walk(h.node):
+            if isinstance(c, ast.Call) and isinstance(c.func, ast.Attribute) and c.func.attr == "isin" and isinstance(c.func.value, ast.Name) and ps and c.func.value.id == ps[0]:
+                masked = [b_ for b_ in ast.walk(h.node) if isinstance(b_, ast.BinOp) and isinstance(b_.op, ast.BitAnd) and any(x is c for x in ast.walk(b_))
+                          and any(isinstance(x, ast.Call) and isinstance(x.func, ast.Attribute) and x.func.attr in ("notna", "notnull", "isna", "isnull") for x in ast.walk(b_))]
+                if masked:
+                    res.ok(rule, f"{h.node.name}: the answer of Series.isin is masked by the column's own missing entries")
+                else:
+                    res.fail_at(rule, h, f"is-in-missing-is-member:{h.node.name}",
+                                f"`{unparse(c)[:40]}` is the answer as it is: pandas' isin matches a missing entry to a None / nan in the list, so s.is_in(['a', None]) is True at the missing "
+                                f"row of a text, categorical or Arrow column where numpy.isin gave False and SQL gives NULL", c)
     else:
         res.abstain(rule, "Pandas is_in", "not bound to a module function")
     # the normalising helper itself: a refusal it swallows must not end in handing the condition back unread — numpy takes nan (the missing value
